@@ -1177,6 +1177,13 @@ func Run(r *common.Run) error {
 				}
 				continue
 			}
+			if len(f) == 6 && f[0] == "C05" && f[1] == "serveiter" {
+				if ts, err := decToks(f[5]); err == nil {
+					c.serveIter(mkCfg(f[2], f[3]), f[4], ts)
+					executed++
+				}
+				continue
+			}
 			if len(f) == 12 && f[0] == "C05" && f[1] == "queued" {
 				cl := call{entry: f[4], form: f[7]}
 				if f[5] != "-" {
@@ -1321,6 +1328,10 @@ func Run(r *common.Run) error {
 	for _, cfg := range cfgs {
 		c.pendingCorpus(cfg)
 	}
+	r.Mark("case one iteration of the serve loop: handler reply, automatic reply, open element")
+	for _, cfg := range cfgs {
+		c.serveIterCorpus(cfg)
+	}
 	r.Mark("case one write of the transport answered with a fault")
 	for _, cfg := range cfgs {
 		c.wfaultCorpus(cfg)
@@ -1372,6 +1383,7 @@ func Run(r *common.Run) error {
 	}
 	c.queuedRandom(rnd, r.Pick(150, 2500))
 	c.pendingRandom(rnd, r.Pick(150, 2500))
+	c.serveIterRandom(rnd, r.Pick(100, 1500))
 	nW := r.Pick(200, 3000)
 	for i := 0; i < nW; i++ {
 		cfg := cfgs[rnd.Intn(len(cfgs))]
